@@ -254,3 +254,36 @@ UNITS = [Unit("nodes_enum", gen_nodes_enum, check_nodes, shards=(3, 8)),
          Unit("disco_order", gen_order, check_order, shards=(1, 4)),
          Unit("tasks_api", gen_tasks_api, check_tasks_api, shards=(1, 4)),
          Unit("tasks_cli", gen_tasks_cli, check_tasks_cli, shards=(4, 8))]
+
+
+def check_bank(cases):
+    """three notions of discontinuity over a whole treebank (one grammar for all trees; productions repeated with
+    different linearizations)"""
+    gram, lex = {}, {}
+    any_gap = False
+    any_refused = False
+    for case in cases:
+        call("C16/extract", grammar.extract, M.build(case, T), gram, lex)
+        any_gap = any_gap or M.tree_gapdeg(case["root"]) > 0
+        try:
+            call("C16/brackets-writer", treeoutput.brackets, M.build(case, T), io.StringIO(), _allowed=(ValueError,))
+        except ValueError:
+            any_refused = True
+    cf = bool(call("C16/is_contextfree", grammaranalysis.is_contextfree, gram))
+    if cf == any_gap:
+        raise violation("C16/three-way/grammar", "treebank with%s discontinuous tree: is_contextfree(grammar) = %r" % ("" if any_gap else "out", cf))
+    if any_refused != any_gap:
+        raise violation("C16/three-way/brackets", "treebank with%s discontinuous tree: bracket writer refused=%r" % ("" if any_gap else "out", any_refused))
+    return any_gap
+
+
+def gen_bank(ctx):
+    from checks.C06 import treebank
+
+    def body(cases):
+        gap = check_bank(cases)
+        ctx.count(key=[c["root"] for c in cases], nontrivial=gap and len(cases) >= 2, classes=["bank:discontinuous" if gap else "bank:continuous"])
+    ctx.hyp(treebank(8 if ctx.tier == "quick" else 11, 5), body, max_examples=600 if ctx.tier == "quick" else 4000)
+
+
+UNITS.append(Unit("three_way_bank", gen_bank, check_bank, shards=(2, 8)))
